@@ -3,6 +3,7 @@ import CalicoVerif.Proofs.C11Range
 import CalicoVerif.Proofs.C11Total
 import CalicoVerif.Proofs.C11Long
 import CalicoVerif.Proofs.C11ChainTop
+import CalicoVerif.Proofs.C11SplitTotal
 /-!
 C11 — BPF policy programs reach the same verdict as the policy semantics.
 
@@ -36,10 +37,14 @@ Main theorems (the property), each with what it does NOT cover:
   block, header + dispatch + reload of the continuation program; the chain of assembled programs
   (`runChain`) ends as the reference verdict demands.  NOT covered: trampolines INSIDE the programs
   of a split build (`ShortBlocks`), a failing policy-jump tail call and slot arithmetic beyond 32
-  bits (`ChainEnv`), the build succeeding (hypothesis `hi`).
+  bits (`ChainEnv`); the build succeeding is a hypothesis here (`hi`) and proved in
+  `compile_total_split_partial` / `polprog_chain_built_partial`.
 * `compile_total_partial`, `polprog_built_verdict_partial` — `Builder.Instructions` neither panics
   nor does `Assemble` fail on valid input (`Buildable`), so the whole-program statement holds
-  without a build hypothesis.  NOT covered: split builds and programs beyond the stride.
+  without a build hypothesis.  NOT covered: programs beyond the stride (split builds: next item).
+* `compile_total_split_partial`, `polprog_chain_built_partial` — the same for SPLIT builds: every
+  program of the chain assembles (each block ends with an empty fix-up table), so the chain theorem
+  holds without a build hypothesis.  NOT covered: programs that reach the trampoline stride.
 * `polprog_state_lookup_fails` — a failing state-map lookup drops the packet, state untouched
   (unsplit programs of any length).
 
@@ -373,8 +378,8 @@ slots `policyMapIndex + k * stride` of the `nmax + 1` programs fit 32 bits, the 
 `ShortBlocks`: no program reaches the trampoline stride (so no trampoline is written inside a
 split program).  `_partial`: NOT covered are trampolines inside the programs of a split build
 (`ShortBlocks`), a FAILING policy-jump tail call (`ChainEnv` assumes success; the code then falls through
-to the `exit` after the call with the drop code), slot arithmetic beyond 32 bits, and the build succeeding
-(hypothesis `hi`). -/
+to the `exit` after the call with the drop code), slot arithmetic beyond 32 bits; the build succeeding is a
+hypothesis here (`hi`), discharged in `polprog_chain_built_partial`. -/
 theorem polprog_chain_partial (env : Env) (st : List Byte) (r : Rules) (hok : ProgOK env st r) (nmax : Nat)
     (he : ChainEnv env nmax) (hsb : ShortBlocks env.c r.forXDP (compile env.c r) {})
     (hnb : (cont env.c r.forXDP (compile env.c r) {}).2.length ≤ nmax)
@@ -402,6 +407,36 @@ example : ChainEnv { c := exCfgSplit } 3 :=
   ⟨rfl, rfl, by decide, by decide, by decide, by decide, by decide, by decide⟩
 example : ProgOK { c := exCfgSplit } (List.replicate 512 0) exRules :=
   exRules_progOK _ _ ⟨List.length_replicate, by decide⟩
+
+/-- **`Builder.Instructions` is total on SPLIT builds**: for a buildable configuration (`Buildable`, as in
+`compile_total_partial`) whose programs all stay below the trampoline stride, the builder neither panics nor
+does `Assemble` fail for ANY program of the chain: at every split each still unresolved jump target gets a
+landing pad, `next-program` is defined by the glue, the dispatch jumps of the continuation program are
+resolved later or get landing pads again, so every block ends with an empty fix-up table (`cont_fix`), and a
+block with an empty fix-up table of at most 32767 events assembles (`asm_of_fix`).  `_partial`: NOT covered
+are programs that reach the trampoline stride (`ShortBlocks`). -/
+theorem compile_total_split_partial (c : Cfg) (r : Rules) (hb : Buildable r)
+    (hsb : ShortBlocks c r.forXDP (compile c r) {}) (hstride : c.trampolineStride ≤ 32767) :
+    ∃ progs, instructions c r = some (some progs) :=
+  instructions_total_split c r hb hsb hstride
+
+/-- `polprog_chain_partial` without a build hypothesis: the chain of programs EXISTS and decides as the
+reference demands.  `_partial`: NOT covered are trampolines inside the programs of a split build
+(`ShortBlocks`), a failing policy-jump tail call and slot arithmetic beyond 32 bits (`ChainEnv`). -/
+theorem polprog_chain_built_partial (env : Env) (st : List Byte) (r : Rules) (hok : ProgOK env st r)
+    (hb : Buildable r) (nmax : Nat) (he : ChainEnv env nmax)
+    (hsb : ShortBlocks env.c r.forXDP (compile env.c r) {})
+    (hnb : (cont env.c r.forXDP (compile env.c r) {}).2.length ≤ nmax) (hstride : env.c.trampolineStride ≤ 32767) :
+    ∃ progs, instructions env.c r = some (some progs) ∧
+      ∃ o, (runChain env progs 0 st).obs = some o ∧
+        (expectedObs env r.forXDP (verdict env r (pktOfD st))).agrees o = true :=
+  polprog_chain_built env st r hok hb nmax he hsb hnb hstride
+
+-- non-vacuity: the split example configuration satisfies the extra hypotheses (`Buildable exRules` and
+-- `ShortBlocks exCfgSplit …` are shown above)
+example : exCfgSplit.trampolineStride ≤ 32767 := by decide
+-- every call site's reload sequence is jump-free (the hypothesis `cont_fix` needs, proved for all inputs)
+example : (compile exCfgSplit exRules).all mOK = true := by decide +kernel
 
 /-! ### Former findings, fixed in the code (de590aa, c209e06): now positive statements -/
 
